@@ -856,6 +856,12 @@ func createAssociationFromConfigWithTsn(cfg *Config, tsn uint32) *Association {
 	assoc.tlrBurstFirstRTTUnits = tlrBurstDefaultFirstRTT
 	assoc.tlrBurstLaterRTTUnits = tlrBurstDefaultLaterRTT
 
+	// RACK compares delivered TSNs with this high-watermark in serial number
+	// arithmetic: it has to start just below our first TSN, not at 0, or every
+	// association whose initial TSN lies in the upper half of the TSN space
+	// reports reordering on its very first acknowledgement.
+	assoc.rackHighestDeliveredOrigTSN = tsn - 1
+
 	// RACK defaults
 	assoc.rack.rackWCDelAck = cfg.rack.rackWCDelAck
 	if assoc.rack.rackWCDelAck == 0 {
